@@ -1047,6 +1047,7 @@ func c13bOther(t *rapid.T, cur, label string) string {
 func drawC13BRevolut(t *rapid.T) C13BCase {
 	c := C13BCase{Importer: "revolut", Base: c13bBase(t), Cur: rapid.SampledFrom(c13bCurrencies).Draw(t, "cur")}
 	var bal int64
+	lo, hi := c13RowBounds(t, 12)
 	c.Rows = rapid.SliceOfN(rapid.Custom(func(t *rapid.T) c13bRow {
 		r := c13bRow{Kind: rapid.SampledFrom([]string{"out", "out", "out", "in", "in", "fxsell", "fxbuy"}).Draw(t, "kind"), Gap: c13bGap(t), A: c13bAmount(t, "a")}
 		if (r.Kind == "out" || r.Kind == "fxsell") && bal < r.A { // a Revolut balance never goes negative
@@ -1073,7 +1074,7 @@ func drawC13BRevolut(t *rapid.T) C13BCase {
 		}
 		r.T2 = c13bText(t, "cat")
 		return r
-	}), 1, 12).Draw(t, "rows")
+	}), lo, hi).Draw(t, "rows")
 	return c
 }
 
@@ -1085,6 +1086,7 @@ func drawC13BRevolut2(t *rapid.T) C13BCase {
 	multi := rapid.IntRange(0, 2).Draw(t, "multiCurrency") > 0
 	cur0 := rapid.SampledFrom(c13bCurrencies).Draw(t, "cur")
 	first := true
+	lo, hi := c13RowBounds(t, 12)
 	c.Rows = rapid.SliceOfN(rapid.Custom(func(t *rapid.T) c13bRow {
 		r := c13bRow{Kind: rapid.SampledFrom([]string{"out", "out", "out", "in", "in", "pending"}).Draw(t, "kind"), Gap: c13bGap(t), A: c13bAmount(t, "a"), Cur: cur0}
 		if !first {
@@ -1121,12 +1123,13 @@ func drawC13BRevolut2(t *rapid.T) C13BCase {
 		r.T2 = rapid.SampledFrom([]string{"CARD_PAYMENT", "TOPUP", "EXCHANGE", "TRANSFER", "ATM", "FEE"}).Draw(t, "type")
 		r.F = rapid.IntRange(0, 1).Draw(t, "startedEarlier")
 		return r
-	}), 1, 12).Draw(t, "rows")
+	}), lo, hi).Draw(t, "rows")
 	return c
 }
 
 func drawC13BWise(t *rapid.T) C13BCase {
 	c := C13BCase{Importer: "wise", Base: c13bBase(t), Name: c13bText(t, "name"), Reverse: rapid.Bool().Draw(t, "reverse")}
+	lo, hi := c13RowBounds(t, 10)
 	c.Rows = rapid.SliceOfN(rapid.Custom(func(t *rapid.T) c13bRow {
 		r := c13bRow{Kind: rapid.SampledFrom([]string{"out", "out", "in", "in", "out-cross", "neutral-cross", "cancelled"}).Draw(t, "kind"), Gap: c13bGap(t), A: c13bAmount(t, "a"),
 			Cur: rapid.SampledFrom(c13bCurrencies).Draw(t, "cur"), F: rapid.IntRange(0, 11).Draw(t, "fmt")}
@@ -1139,7 +1142,7 @@ func drawC13BWise(t *rapid.T) C13BCase {
 		r.T1 = c13bText(t, "target")
 		r.T2 = c13bText(t, "reference")
 		return r
-	}), 1, 10).Draw(t, "rows")
+	}), lo, hi).Draw(t, "rows")
 	return c
 }
 
@@ -1147,6 +1150,7 @@ func drawC13BSwissquote(t *rapid.T) C13BCase {
 	c := C13BCase{Importer: "swissquote", Base: c13bBase(t)}
 	kinds := []string{"Kauf", "Kauf", "Verkauf", "forex", "forex", "forex-comp", "Dividende", "Dividende", "Capital Gain", "Kapitalrückzahlung", "Depotgebühren",
 		"Einzahlung", "Einzahlung", "Auszahlung", "Vergütung", "Belastung", "Zins", "other"}
+	lo, hi := c13RowBounds(t, 10)
 	c.Rows = rapid.SliceOfN(rapid.Custom(func(t *rapid.T) c13bRow {
 		r := c13bRow{Kind: rapid.SampledFrom(kinds).Draw(t, "kind"), Gap: c13bGap(t), A: c13bAmount(t, "a"),
 			Cur: rapid.SampledFrom(c13bCurrencies).Draw(t, "cur"), F: rapid.IntRange(0, 1).Draw(t, "variant")}
@@ -1185,7 +1189,7 @@ func drawC13BSwissquote(t *rapid.T) C13BCase {
 			}
 		}
 		return r
-	}), 1, 10).Draw(t, "rows")
+	}), lo, hi).Draw(t, "rows")
 	return c
 }
 
@@ -1195,6 +1199,7 @@ func drawC13BIB(t *rapid.T) C13BCase {
 	pos := map[string]int64{}
 	symCur := map[string]string{}
 	kinds := []string{"buy", "buy", "sell", "fxbuy", "fxsell", "deposit", "deposit", "withdrawal", "dividend", "wht", "interest-credit", "interest-debit"}
+	lo, hi := c13RowBounds(t, 10)
 	c.Rows = rapid.SliceOfN(rapid.Custom(func(t *rapid.T) c13bRow {
 		r := c13bRow{Kind: rapid.SampledFrom(kinds).Draw(t, "kind"), Gap: c13bGap(t), Cur: rapid.SampledFrom(c13bCurrencies).Draw(t, "cur"), F: rapid.IntRange(0, 5).Draw(t, "fmt")}
 		switch r.Kind {
@@ -1248,7 +1253,7 @@ func drawC13BIB(t *rapid.T) C13BCase {
 			}
 		}
 		return r
-	}), 1, 10).Draw(t, "rows")
+	}), lo, hi).Draw(t, "rows")
 	return c
 }
 
@@ -1262,4 +1267,14 @@ func TestC13B_Swissquote(t *testing.T) {
 }
 func TestC13B_InteractiveBrokers(t *testing.T) {
 	runProp(t, "C13", "interactivebrokers", drawC13BIB, checkC13B)
+}
+
+// c13RowBounds: statements normally have 1..max rows; one in twelve is long (40-120 rows), so that the
+// emitted journal exceeds the 4 KiB of a default bufio.Writer and a statement line count above any small buffer.
+func c13RowBounds(t *rapid.T, max int) (int, int) {
+	if rapid.IntRange(0, 11).Draw(t, "manyRows") == 0 {
+		n := rapid.IntRange(40, 120).Draw(t, "nManyRows")
+		return n, n
+	}
+	return 1, max
 }
